@@ -48,6 +48,7 @@ pub fn run(name: &str, seed: u64, rest: &[String]) -> String {
         "adpcm" => adpcm_oracle(seed),
         "dbc_paths" => dbc_paths(seed),
         "extract_paths" => extract_paths(seed),
+        "alloc_bound" => alloc_bound(rest.first().map(|s| s.as_str()).unwrap_or("")),
         "adt_water" => adt_water(seed),
         "mod_options" => mod_options(seed),
         "interop_dirs" => interop_dirs(),
@@ -628,7 +629,10 @@ fn build_lookup(seed: u64) -> String {
             }
         }
     }
-    none("build_lookup", tried)
+    // F1 (repaired): a multi-sector file stored without compression reads back bit-identically
+    let f1 = f1_stored_multisector();
+    if f1.contains("\"failing_input\":\"") { return f1.replace("f1_stored_multisector", "build_lookup"); }
+    none("build_lookup", tried + 1)
 }
 
 fn md5_of(d: &[u8]) -> [u8; 16] { use md5::{Digest, Md5}; let mut h = Md5::new(); h.update(d); h.finalize().into() }
@@ -2001,4 +2005,83 @@ fn adt_water(seed: u64) -> String {
         }
     }
     none("adt_water", tried)
+}
+
+
+// ---- C05: "requesting memory out of proportion to the input size" -------------------------------------------------------
+// tiny files whose size / count fields are hostile: the largest single allocation request made while parsing must stay within
+// 16 MiB + 64 x input length.  `only` selects one family ("wdt", "wdl", "blp", "dbc", "mpq"); empty = all.
+fn alloc_bound(only: &str) -> String {
+    use crate::alloc_track;
+    let chunk = |magic: &[u8; 4], size: u32, payload: &[u8]| -> Vec<u8> { let mut v = magic.to_vec(); v.extend_from_slice(&size.to_le_bytes()); v.extend_from_slice(payload); v };
+    let mut cases: Vec<(&str, String, Vec<u8>)> = Vec::new();
+    // WDT: MVER then a chunk with a hostile size and no payload
+    for (m, name) in [(b"OMWM", "MWMO"), (b"FDOM", "MODF"), (b"DIAM", "MAID"), (b"NIAM", "MAIN"), (b"DHPM", "MPHD"), (b"XXXX", "unknown")] {
+        for size in [0xFFFF_FF00u32, 0x7FFF_FFC0, 0x1000_0000, 0x4000_0040] {
+            let mut f = chunk(b"REVM", 4, &18u32.to_le_bytes());
+            f.extend(chunk(m, size, &[1, 2, 3, 4]));
+            cases.push(("wdt", format!("WDT: MVER + {} chunk header declaring {:#x} bytes, 4 payload bytes", name, size), f));
+        }
+    }
+    // WDL: MVER then hostile chunk sizes
+    for (m, name) in [(b"OMWM", "MWMO"), (b"DIWM", "MWID"), (b"FDOM", "MODF"), (b"FOAM", "MAOF"), (b"ERAM", "MARE"), (b"XXXX", "unknown")] {
+        for size in [0xFFFF_FF00u32, 0x7FFF_FFC0, 0x1000_0000] {
+            let mut f = chunk(b"REVM", 4, &18u32.to_le_bytes());
+            f.extend(chunk(m, size, &[1, 2, 3, 4]));
+            cases.push(("wdl", format!("WDL: MVER + {} chunk header declaring {:#x} bytes, 4 payload bytes", name, size), f));
+        }
+    }
+    // BLP2 raw3 / raw1 / dxt with huge dimensions and a small level
+    for comp in [1u8, 2, 3] { for (w, h) in [(0x4000u32, 0x4000u32), (0xFFFF, 0xFFFF), (0x10000, 0x1000)] {
+        let mut offs = [0u32; 16]; let mut sizes = [0u32; 16]; offs[0] = 1172; sizes[0] = 64;
+        let mut v = blp_file(2, 1, 0, w, h, 0, offs, sizes, &vec![7u8; 1024 + 64]);
+        v[8] = comp; v[9] = 8; v[10] = 0;
+        cases.push(("blp", format!("BLP2 compression {} {}x{} with a 64-byte level 0", comp, w, h), v));
+    }}
+    // DBC: header declaring huge tables, no data
+    for (rc, fc, rs, sb) in [(0xFFFF_FFFFu32, 1u32, 4u32, 0u32), (0x1000_0000, 4, 16, 0), (1, 1, 4, 0xFFFF_FF00), (0, 1, 4, 0x7FFF_FFFF)] {
+        let mut v = b"WDBC".to_vec();
+        for x in [rc, fc, rs, sb] { v.extend_from_slice(&x.to_le_bytes()); }
+        v.extend_from_slice(&[0u8; 8]);
+        cases.push(("dbc", format!("DBC header: {} records x {} bytes ({} fields), string block {:#x}; 8 data bytes", rc, rs, fc, sb), v));
+    }
+    // MPQ: V1 header declaring huge tables
+    for (hn, bn) in [(0x1000_0000u32, 1u32), (16, 0x1000_0000), (0x0800_0000, 0x0800_0000)] {
+        let mut v = b"MPQ\x1a".to_vec();
+        for x in [32u32, 2048] { v.extend_from_slice(&x.to_le_bytes()); }
+        v.extend_from_slice(&0u16.to_le_bytes()); v.extend_from_slice(&3u16.to_le_bytes());
+        for x in [32u32, 64, hn, bn] { v.extend_from_slice(&x.to_le_bytes()); }
+        v.resize(2048, 0);
+        cases.push(("mpq", format!("MPQ V1 header: hash table {:#x} entries, block table {:#x} entries, 2048-byte file", hn, bn), v));
+    }
+    let mut tried = 0;
+    for (fam, desc, bytes) in cases {
+        if !only.is_empty() && only != fam { continue; }
+        tried += 1;
+        let b2 = bytes.clone();
+        alloc_track::reset();
+        let r = catch(move || {
+            match fam {
+                "wdt" => { let _ = wow_wdt::WdtReader::new(std::io::Cursor::new(b2), wow_wdt::version::WowVersion::WotLK).read().is_ok(); }
+                "wdl" => { let _ = wow_wdl::parser::WdlParser::new().parse(&mut std::io::Cursor::new(b2)).is_ok(); }
+                "blp" => { let _ = wow_blp::parser::parse_blp(&b2).is_ok(); }
+                "dbc" => {
+                    use wow_cdbc::{DbcParser, FieldType, Schema, SchemaField};
+                    let mut sc = Schema::new("t"); sc.add_field(SchemaField::new("a", FieldType::UInt32));
+                    let _ = DbcParser::parse_bytes(&b2).and_then(|p| p.with_schema(sc)).and_then(|p| p.parse_records()).is_ok();
+                }
+                _ => {
+                    let dir = tempfile::tempdir().unwrap(); let p = dir.path().join("h.mpq"); std::fs::write(&p, &b2).unwrap();
+                    if let Ok(mut a) = wow_mpq::Archive::open(&p) { let _ = a.list().is_ok(); let _ = a.read_file("x").is_ok(); }
+                }
+            }
+        });
+        let peak = alloc_track::max();
+        let bound = (16usize << 20) + 64 * bytes.len();
+        if let Err(p) = r { if !p.contains("capacity overflow") && !p.contains("alloc") { return fail("alloc_bound", format!("{} ({} bytes)", desc, bytes.len()), format!("panic: {}", p), "Ok or Err".into()); } }
+        if peak > bound {
+            return fail("alloc_bound", format!("{} ({} bytes)", desc, bytes.len()), format!("a single allocation of {} bytes was requested", peak), format!("at most {} bytes (16 MiB + 64 x input length)", bound));
+        }
+    }
+    none("alloc_bound", tried)
 }
